@@ -2042,7 +2042,7 @@ fn verif_errors(errors: &[Error]) -> Vec<(String, usize, usize)> {
     errors
         .iter()
         .map(|e| match e {
-            Error::UnrecognizedToken(_, i) => ("UnrecognizedToken".to_string(), *i, *i + 1),
+            Error::UnrecognizedToken(_, s) => ("UnrecognizedToken".to_string(), s.lo, s.hi),
             Error::UnrecognizedEscapeSequence(_, s) => {
                 ("UnrecognizedEscapeSequence".to_string(), s.lo, s.hi)
             }
